@@ -102,8 +102,12 @@ func runScenario(r *ev.Run, base []string, threads []int, bound int, prefix []in
 				k, op := k, op
 				bodies[k] = func() { results[k] = safeRun(op) }
 			}
+			Recheck() // forget what earlier executions remembered
 			panics, capped := rt.RunThreads(bodies)
 			obs := ""
+			if d := Recheck(); d != "" {
+				obs += "a result that had been returned changed afterwards:\n" + clip(d) + "\n"
+			}
 			for k, op := range threads {
 				switch {
 				case panics[k] != nil:
@@ -296,7 +300,7 @@ func main() {
 		racePass(r, rounds)
 	}
 	if r.Fork(16) {
-		r.Set("rule", "part 1: 15 scenarios of 2-3 concurrent operations (two specifications built to collide on repeated multi-symbol sub-expressions, a pattern, a specification with errors, automaton and table construction); scheduling points = every statement of /repo touching a package-level variable; all interleavings with at most the preemption bound, preempting at the first 6 (quick) / 24 (thorough) dynamic occurrences of every static point, are enumerated, each thread's result compared with the same operation run alone in a fresh process; states = distinct outcomes, transitions = scheduling points passed; part 2: free-running -race pass; part 3: every sequential history up to the length bound over 15 operations")
+		r.Set("rule", "part 1: 15 scenarios of 2-3 concurrent operations (two specifications built to collide on repeated multi-symbol sub-expressions, a pattern, a specification with errors, automaton and table construction); scheduling points = every statement of /repo touching a package-level variable; all interleavings with at most the preemption bound, preempting at the first 6 (quick) / 24 (thorough) dynamic occurrences of every static point, are enumerated, each thread's result compared with the same operation run alone in a fresh process, and every returned specification rendered again after all threads have finished (a result must stay what it was); states = distinct outcomes, transitions = scheduling points passed; part 2: free-running -race pass; part 3: every sequential history up to the length bound over 15 operations")
 		r.Set("evaluations", r.Get("executions")+r.Get("histories"))
 		r.Set("traces_validated_against_impl", r.Get("executions")+r.Get("histories"))
 		if r.Get("states") == 0 {
@@ -361,6 +365,16 @@ func main() {
 func history(r *ev.Run, base []string, seq []int) {
 	r.Add("histories", 1)
 	r.Distinct(fmt.Sprint(seq))
+	Recheck()
+	defer func() {
+		if d := Recheck(); d != "" {
+			names := []string{}
+			for _, o := range seq {
+				names = append(names, Ops[o].Name)
+			}
+			r.Report("", fmt.Sprintf("history %v: a result that had been returned changed after later operations:\n%s", names, clip(d)), replayInput{History: seq})
+		}
+	}()
 	for pos, op := range seq {
 		if got := safeRun(op); got != base[op] {
 			names := []string{}
